@@ -205,3 +205,33 @@ void h_add_str_fail(void) {
   VASSERT(h.f0 == 4 && h.f1 == 4 && (int32_t)h.f8.e[0] == a && (int32_t)h.f8.e[1] == a && (int32_t)h.f8.e[2] == a && (int32_t)h.f8.e[3] == b, "document intact: [a,a,a,b]");
   VWITNESS("any");
 }
+
+/* ---- C13: 2-D copyArray: rows and columns beyond the destination are dropped, cells the document does not have stay untouched */
+void h_copyarray_2d_out(void) {
+  int32_t a = (int32_t)vin_u32(), b = (int32_t)vin_u32(), x = (int32_t)vin_u32(), c = (int32_t)vin_u32();
+  int32_t g[6]; for (unsigned i = 0; i < 6; i++) g[i] = 0x5A5A5A5A;
+  w_copyarray_2d_out((uint32_t)a, (uint32_t)b, (uint32_t)x, (uint32_t)c, (uint32_t*)g);
+  VASSERT(g[1] == a && g[2] == b, "row 0 receives its first two elements; the third has no cell and is dropped");
+  VASSERT(g[3] == c && g[4] == 0x5A5A5A5A, "row 1 receives its single element; the cell without a source element is untouched");
+  VASSERT(g[0] == 0x5A5A5A5A && g[5] == 0x5A5A5A5A, "nothing outside the destination is written");
+  VWITNESS("any");
+}
+void h_copyarray_2d_in(void) {
+  int32_t a = (int32_t)vin_u32(), b = (int32_t)vin_u32(), c = (int32_t)vin_u32(), d = (int32_t)vin_u32();
+  int32_t out[4] = {0, 0, 0, 0}; uint32_t sz[3] = {9, 9, 9};
+  unsigned ok = w_copyarray_2d_in((uint32_t)a, (uint32_t)b, (uint32_t)c, (uint32_t)d, (uint32_t*)out, sz);
+  VASSERT(ok && sz[0] == 2 && sz[1] == 2 && sz[2] == 2, "two rows of two elements");
+  VASSERT(out[0] == a && out[1] == b && out[2] == c && out[3] == d, "every cell at its place");
+  VWITNESS("any");
+}
+
+/* ---- C04/C06: removing a nested array releases its elements' slots as well; they are reused before any new pool */
+void h_nested_remove(void) {
+  int32_t a = (int32_t)vin_u32(), b = (int32_t)vin_u32(), c = (int32_t)vin_u32(), d = (int32_t)vin_u32();
+  struct S_Hist h; memset(&h, 0, sizeof h); w_hist_nested_remove((uint32_t)a, (uint32_t)b, (uint32_t)c, (uint32_t)d, &h);
+  VASSERT(h.f5 == 7, "the three adds succeed");
+  VASSERT(h.f4 == h.f3, "without any allocator call: the removed element's slot AND its two children's slots are reused");
+  VASSERT(h.f0 == 4 && h.f1 == 4 && (int32_t)h.f8.e[0] == c && (int32_t)h.f8.e[1] == d && (int32_t)h.f8.e[2] == d && (int32_t)h.f8.e[3] == d, "document is [c,d,d,d]");
+  VASSERT(!(h.f2 & 1) && h.f6 == 1, "not overflowed; nesting 1");
+  VWITNESS("any");
+}
